@@ -120,6 +120,14 @@ def run_case(spec0):
                 req = sorted(set(req) | {prev[int(rng.integers(len(prev)))]})
             rng.shuffle(req)
             want, tensor = biased_request(rng, spec, prev)
+            explicit = None
+            if rng.random() < 0.3:
+                # explicit restart=: everything must come from that restart
+                cand = [r for r, rs in enumerate(spec['restarts']) if rs['its'].get(rl)]
+                explicit = cand[int(rng.integers(len(cand)))]
+                pool = spec['restarts'][explicit]['its'][rl]
+                req = [int(v) for v in rng.choice(pool, int(rng.integers(1, min(len(pool), 4) + 1)),
+                                                  replace=False)]
             prev_its.setdefault(rl, []).extend(req)
             split = bool(rng.random() < 0.75)
             before = scan_cache(param, spec) if split else {}
@@ -127,7 +135,8 @@ def run_case(spec0):
             try:
                 with common.Quiet():
                     data = A.read_data(param, it=list(req), vars=list(want), rl=rl,
-                                       restart=-1, split_per_it=split, skip_last=False,
+                                       restart=(-1 if explicit is None else explicit),
+                                       split_per_it=split, skip_last=False,
                                        verbose=False)
             except Exception as e:
                 common.add_violation(
@@ -145,7 +154,7 @@ def run_case(spec0):
             hits = misses = 0
             for cname in comp:
                 for it in req:
-                    r = etgen.restart_of(spec, it, rl)
+                    r = etgen.restart_of(spec, it, rl) if explicit is None else explicit
                     if (r, it, cname, rl) in before:
                         hits += 1
                     else:
@@ -166,7 +175,9 @@ def run_case(spec0):
                         bad = ("variable column missing or of wrong length", {"var": cname})
                         break
                     for j, it in enumerate(its):
-                        exp = etgen.expected(spec, INV[cname], it, rl)
+                        exp = (etgen.expected(spec, INV[cname], it, rl) if explicit is None else
+                               etgen.truth(INV[cname], it, rl, spec['restarts'][explicit]['rtag'],
+                                           spec['levels'][rl]['shape']))
                         g = data[cname][j]
                         res['observations'] += 1
                         if g is None or np.shape(g) != exp.shape or not np.array_equal(np.asarray(g), exp):
